@@ -612,6 +612,7 @@ func runC07(c *Ctx) {
 	checkDHCPNak(c)
 	checkMulticastPair(c)
 	checkPrefixCopy(c)
+	checkMarshalVerbatim(c)
 	checkOptionsSent(c)
 
 	// ---- checksum order ----
@@ -1375,6 +1376,44 @@ func wholeStored(al *ssa.Alloc) bool {
 		}
 	}
 	return false
+}
+
+// checkMarshalVerbatim: the fixed-width integers an NDP option encoder writes are the receiver's fields as they are: the
+// value handed to PutUint32 / PutUint16 in a marshal method of layer_icmp6_options.go is computed without a choice
+// between alternatives (no φ in its data slice) - a lifetime of zero is a request of its own (RFC 8106: stop using these
+// servers), not "unset".
+func checkMarshalVerbatim(c *Ctx) {
+	c.R.Rule("marshal-verbatim", "the integers an NDP option encoder writes are the receiver's fields, with no substituted default", 3)
+	kg := core.NewKeyGen()
+	for _, fn := range c.P.LibFunctions() {
+		if fn.Name() != "marshal" || fn.Pkg == nil || fn.Pkg.Pkg.Name() != "packet" || !strings.Contains(c.P.Pos(fn.Pos()), "layer_icmp6_options.go") {
+			continue
+		}
+		for _, site := range callsIn(fn, nameIs("PutUint32", "PutUint16")) {
+			a := site.Common().Args
+			v := a[len(a)-1]
+			fromRecv, phi := false, ""
+			for w := range dataSlice(fn, v) {
+				if ph, ok := w.(*ssa.Phi); ok {
+					phi = norm(ph)
+					_ = ph
+				}
+				if fa, ok := w.(*ssa.FieldAddr); ok && len(fn.Params) > 0 && fa.X == ssa.Value(fn.Params[0]) {
+					fromRecv = true
+				}
+			}
+			if !fromRecv {
+				continue // a constant or a length, not a field of the option
+			}
+			st, det := core.Proved, ""
+			if phi != "" {
+				st = core.Violated
+				det = core.FuncName(fn) + " writes " + norm(v) + ": the value is chosen between the receiver's field and something else, so for some value of the field the option does not carry what the caller set (an RDNSS lifetime of 0 - withdraw these servers - goes out as a default lifetime)"
+			}
+			c.R.Add(core.Obligation{Rule: "marshal-verbatim", Key: strings.TrimSuffix(kg.Key("marshal-verbatim "+core.FuncName(fn)), "#0"), Func: core.FuncName(fn), Pos: c.P.Pos(core.PosOf(site.(ssa.Instruction))), Status: st,
+				Basis: "no φ in the data slice of the written value", Detail: det})
+		}
+	}
 }
 
 // checkPrefixCopy: the prefix option of a router advertisement carries the prefix the caller gave: PrefixInformation.marshal
